@@ -957,7 +957,20 @@ func runCat(fl *failer, c Case, l *layout, idx desync.Index, bin string) {
 			}
 			dropped = p
 		}
-		ctx, cancel := context.WithTimeout(context.Background(), 50*time.Second)
+		// a range that reaches a mis-sized entry can only be refused; the unrepaired reader spins on some of
+		// them (Read returns 0, nil for ever), so these get a short leash
+		limit := 50 * time.Second
+		reachesBad := false
+		if o := int64(op.Off); o <= l.length {
+			n := l.length - o
+			if op.Len > 0 {
+				n = min(n, int64(op.Len))
+			}
+			if reachesBad = l.readable(o, n) < n; reachesBad {
+				limit = 5 * time.Second
+			}
+		}
+		ctx, cancel := context.WithTimeout(context.Background(), limit)
 		cmd := exec.CommandContext(ctx, bin, args...)
 		cmd.Env = append(os.Environ(), "HOME="+dir)
 		var stdout, stderr bytes.Buffer
@@ -975,7 +988,12 @@ func runCat(fl *failer, c Case, l *layout, idx desync.Index, bin string) {
 			tail = tail[:600]
 		}
 		if timedOut {
-			fl.fail("hang", "%s did not finish within 50s", desc)
+			if reachesBad {
+				fl.class("cat:mis-sized-entry")
+				fl.fail("C09:cat:mis-sized-entry-hang", "%s reaches an index entry whose size differs from the chunk stored under its ID and did not finish within %s (stdout %d bytes)", desc, limit, stdout.Len())
+			} else {
+				fl.fail("hang", "%s did not finish within %s", desc, limit)
+			}
 			continue
 		}
 		exit := 0
@@ -987,7 +1005,11 @@ func runCat(fl *failer, c Case, l *layout, idx desync.Index, bin string) {
 			exit = ee.ExitCode()
 		}
 		if strings.Contains(stderr.String(), "panic:") || strings.Contains(stderr.String(), "fatal error:") {
-			fl.fail(panicSig("cat", l), "%s crashed (exit %d): %s", desc, exit, tail)
+			sig := panicSig("cat", l)
+			if reachesBad {
+				sig = "C09:cat:mis-sized-entry-panic"
+			}
+			fl.fail(sig, "%s crashed (exit %d): %s", desc, exit, tail)
 			continue
 		}
 		off := int64(op.Off)
